@@ -77,6 +77,41 @@ def is_conjunctive(c, pol):
     return False
 
 
+ALWAYS_BOOL = {"np.logical_and", "np.logical_or", "np.logical_not", "lt", "le", "gt", "ge", "eq", "ne", "and", "or", "not", "np.isnan", "np.isinf", "isinstance"}
+
+
+def compares_shape_of(names):
+    """The guard must inspect the *shape* of the corrupted value (a test of its rank alone is weaker)."""
+    def pred(c):
+        for t in T.subterms(c):
+            if t.op == "attr" and t.args[1] == "shape" and (T.atoms_of(t.args[0]) & set(names)):
+                return True
+            if t.op == "tree.tree_map" and getattr(t.args[0], "name", None) == "np.shape" and (T.atoms_of(t) & set(names)):
+                return True
+            if t.op == "lam" and any(x.op == "attr" and x.args[1] == "shape" for x in T.subterms(t)):
+                return True
+        return False
+    return pred
+
+
+def dtype_test_is_live(c):
+    """A dtype guard is dead if the value it inspects is boolean by construction (e.g. the result of logical_and)."""
+    for t in T.subterms(c):
+        if t.op == "attr" and t.args[1] == "dtype":
+            v = t.args[0]
+            while isinstance(v, T.Term) and v.op in ("np.asarray",) and v.args:
+                v = v.args[0]
+            if isinstance(v, T.Term) and v.op == "leaf_of":
+                src = v.args[0]
+                if isinstance(src, T.Term) and src.op == "tree.tree_map" and isinstance(src.args[0], T.Term) and src.args[0].op == "lam":
+                    body = src.args[0].args[1]
+                    if isinstance(body, T.Term) and body.op in ALWAYS_BOOL:
+                        return False
+            if isinstance(v, T.Term) and v.op in ALWAYS_BOOL:
+                return False
+    return True
+
+
 def plain_function(names):
     """Corruption 'a plain function / arbitrary object': it is an instance of no repository class and no array."""
     def assume(c):
@@ -151,7 +186,7 @@ def rows(S):
             call(it, method(it, ssm, "prior_wiener_integrated_diffuse"), mean2(), std2(), output_scale=A("bad"))
 
         out.append(Row(f"{fam}: output_scale structure at construction", "output scale at construction", f, "TypeError", ["bad"], sibling="construct-structure"))
-        out.append(Row(f"{fam}: output_scale shape at construction", "output scale at construction", f, "ValueError", ["bad"], sibling="construct-shape"))
+        out.append(Row(f"{fam}: output_scale shape at construction", "output scale at construction", f, "ValueError", ["bad"], sibling="construct-shape", cond_pred=compares_shape_of({"bad"})))
         # is_exact
         def g(it, q=qual):
             ssm = mk_ssm(it, q)
@@ -159,7 +194,7 @@ def rows(S):
             call(it, method(it, ssm, "_tcoeffs_standard_deviation"), mean2(), is_exact=bad, inexact_eps=A("eps"))
 
         out.append(Row(f"{fam}: is_exact structure/shape", "is_exact", g, "ValueError", ["bad"], sibling="is_exact-shape"))
-        out.append(Row(f"{fam}: is_exact dtype", "is_exact", g, "TypeError", ["bad"], sibling="is_exact-dtype"))
+        out.append(Row(f"{fam}: is_exact dtype", "is_exact", g, "TypeError", ["bad"], sibling="is_exact-dtype", cond_pred=dtype_test_is_live))
         # Taylor-coefficient containers
         ncls = normals[fam]
         for which, label in ((0, "from_dirac(mean)"), (1, "from_mean_and_std(mean)"), (2, "from_mean_and_std(std)")):
@@ -201,14 +236,14 @@ def rows(S):
             prior = it.instantiate(it.class_value(pq), [A("init"), arr("base_scale")], pkw, "<harness>")
             call(it, method(it, prior, "transition"), dt=A("dt"), output_scale=A("bad"))
 
-        out.append(Row(f"{fam}: transition(output_scale) shape", "output scale at call", t, "ValueError", ["bad"], sibling="transition-shape"))
+        out.append(Row(f"{fam}: transition(output_scale) shape", "output scale at call", t, "ValueError", ["bad"], sibling="transition-shape", cond_pred=compares_shape_of({"bad"})))
     pq, pkw = priors["dense-exponential"]
 
     def t2(it):
         prior = it.instantiate(it.class_value(pq), [A("init"), arr("base_scale")], pkw, "<harness>")
         call(it, method(it, prior, "transition"), dt=A("dt"), output_scale=A("bad"))
 
-    out.append(Row("dense exponential: transition(output_scale) shape", "output scale at call", t2, "ValueError", ["bad"]))
+    out.append(Row("dense exponential: transition(output_scale) shape", "output scale at call", t2, "ValueError", ["bad"], cond_pred=compares_shape_of({"bad"})))
 
     # isotropic scalar std
     def iso_std(it):
@@ -350,7 +385,10 @@ def rows(S):
                 call(it, method(it, h, m), A("fun"), A("bad"), A("state"))
 
             out.append(Row(f"{hq}.{m}: x not an array", "Jacobian handlers", jh, "TypeError", ["bad"], sibling=f"jac-type-{m}", assume=plain_function({"bad"})))
-            out.append(Row(f"{hq}.{m}: x / f(x) not 2-d or d mismatch", "Jacobian handlers", jh, "ValueError", ["bad"], sibling=f"jac-shape-{m}"))
+            out.append(Row(f"{hq}.{m}: x or f(x) not 2-d", "Jacobian handlers", jh, "ValueError", ["bad"], sibling=f"jac-rank-{m}",
+                           cond_pred=lambda c: any(t.op == "attr" and t.args[1] == "ndim" and t.args[0] is A("bad") for t in T.subterms(c))))
+            out.append(Row(f"{hq}.{m}: trailing dimensions of x and f(x) differ", "Jacobian handlers", jh, "ValueError", ["bad"], sibling=f"jac-dim-{m}",
+                           cond_pred=lambda c: any(t.op == "attr" and t.args[1] == "shape" and t.args[0] is A("bad") for t in T.subterms(c))))
 
             def jf(it, hq=hq, m=m):
                 h = it.instantiate(it.class_value(f"{JAC}.{hq}"), [], {}, "<harness>")
@@ -392,7 +430,7 @@ def rows(S):
 
 def run(chk, S: Session):
     chk.trust("tree.tree_structure / tree.tree_all / np.shape / isinstance / np.ndim as named")
-    r1 = chk.rule("R-C20-1", "guard table: a raise-guard of the listed type depending on the corrupted value lies on every returning path (or the configuration raises)", floor=90)
+    r1 = chk.rule("R-C20-1", "guard table: a raise-guard of the listed type depending on the corrupted value lies on every returning path (or the configuration raises)", floor=100)
     r2 = chk.rule("R-C20-2", "sibling agreement: the three factorisations reject the same corruptions with the same exception types", floor=12)
     r3 = chk.rule("R-C20-3", "suitability warnings for the documented unsuitable strategy/routine pairings, and only for those", floor=12)
     table = rows(S)
